@@ -159,3 +159,17 @@ Definition is_qstar (m : mdp) (q : qtab) : Prop :=
   forall s a, (s < nS m)%nat -> (a < nA m)%nat -> qget q s a == q_of m (map maxl q) s a.
 (* (s,a) moves deterministically to s1 *)
 Definition det_at (m : mdp) (s a s1 : nat) : Prop := forall v, dot (trow m s a) v == nthq v s1.
+
+(* ---------- the documented trace cut of the control learners ---------- *)
+(* probability the (implied) epsilon-greedy target policy gives to action a in state s on table q *)
+Definition target_prob (eps : Q) (q : qtab) (s a : nat) : Q := nthq (egreedy_row eps (row q s)) a.
+(* RetraceL / TreeBackupL / ImportanceSampling headers + OffPolicyTemplate.hpp ("maxA is the already
+   computed best greedy action for state s"; "the ratio between the assumed epsilon-greedy policy and
+   the behaviour policy"): the factor applied to the traces when (s,a) is experienced *)
+Definition doc_ctrl_discount (k : okind) (lam eps : Q) (q : qtab) (s a : nat) (mu : Q) : Q :=
+  match k with
+  | KQL => lam
+  | KRetrace => lam * Qmin 1 (target_prob eps q s a / mu)
+  | KTreeBackup => lam * target_prob eps q s a
+  | KImportance => target_prob eps q s a / mu
+  end.
